@@ -212,6 +212,9 @@ def run(ctx):
     kinds = {}
     for o in obs:
         kinds[o["kind"]] = kinds.get(o["kind"], 0) + 1
+    if ctx.thorough and not getattr(ctx, "_c20_race_done", False):
+        ctx._c20_race_done = True
+        race_runs(ctx)
     evals = sum(1 if o["kind"] == "enc" else len(o.get("rows") or []) + len(o.get("h") or []) + len(o.get("c") or []) + len(o.get("obs") or [])
                 for o in obs)
     distinct = len({(o["dev"], o["ino"]) for o in obs if o["kind"] == "enc"}) + 7 * 4096 + \
@@ -223,9 +226,39 @@ def run(ctx):
                 "raw 64-bit devices, random bit lengths; one sequential history with repeats + 16 goroutines on known and fresh pairs; all 7 x 4096 modes; "
                 "ModeFromOS on single/double os.FileMode bits and random words; Mapper histories on shared generators + concurrent QIDFor; concurrent "
                 "Readdir/Walk/GetAttr through composefs with staticfs and nested mounts; distinct = distinct pairs + mode words + distinct (key, result) rows",
-        "correspondence": {"cases": len(obs), "mismatches": nm_, "by_kind": kinds},
+        "correspondence": {"cases": len(obs), "mismatches": nm_, "by_kind": kinds,
+                           "gate_probe": [{"rounds": o.get("probe_rounds"), "goroutines_released_together": o.get("probe_workers"),
+                                           "rounds_with_two_paths_for_one_file": o.get("probe_disagreements")}
+                                          for o in obs if o.get("probe_rounds") is not None]},
         "samples": [summarize(o) for o in (obs[:1] + [x for x in obs if x["kind"] == "conc"][:1] + [x for x in obs if x["kind"] == "mapconc"][:1])],
     })
+
+
+RACE_TESTS = (
+    ("fsimpl/qids", "^TestVerifC20Mapper$", ["vh_fs_common_test.go", "c20_mapper_test.go"]),
+    ("fsimpl/composefs", "^TestVerifC20FsConc$", ["vh_fs_common_test.go", "c20_conc_test.go"]),
+    ("fsimpl/localfs", "^TestVerifC20Local$", ["vh_fs_common_test.go", "c20_qid_test.go"]),
+)
+
+
+def race_runs(ctx):
+    """Thorough tier, supporting evidence only: the concurrent QID lookups again under the Go race detector."""
+    res = []
+    for pkg, test, files in RACE_TESTS:
+        rc, out, _ = ctx.gotest(pkg, test, files, env={"VERIF_TIER": "quick"}, timeout=1500, race=True)
+        if "WARNING: DATA RACE" in out:
+            i = out.index("WARNING: DATA RACE")
+            ctx.violation("C20:race:%s" % pkg, "the race detector reports a data race during concurrent QID lookups (%s)" % pkg,
+                          {"package": pkg, "test": test, "seed": ctx.seed, "how": "go test -race -overlay <harness> -run '%s' ./%s" % (test, pkg),
+                           "report": out[i:i + 3000]})
+            res.append({"package": pkg, "result": "DATA RACE"})
+        elif rc != 0:
+            # no C toolchain / race runtime offline: supporting evidence unavailable, never a verdict
+            ctx.note("race run of %s not available (rc=%d): %s" % (pkg, rc, out[-200:].replace("\n", " ")))
+            res.append({"package": pkg, "result": "unavailable rc=%d" % rc})
+        else:
+            res.append({"package": pkg, "result": "no race reported"})
+    ctx.coverage["race_detector_runs"] = res
 
 
 def search(ctx):
